@@ -180,7 +180,7 @@ int main(int argc, char** argv) {
             bool conv = w[0] == "conv";
             std::string const& t = w[2];          // dst (crop / paths / small) or native type (conv)
 #if SEL(1)
-            if (fmt == "bmp" || fmt == "bmprle") {
+            if (fmt == "bmp" || fmt == "bmprle" || fmt == "bmprlef") {   // bmprlef: RLE file, reader believed safe (no child process)
                 if (conv) { if (t == "rgb8") return dispatch_conv<gil::bmp_tag, gil::rgb8_image_t>(w, path); if (t == "rgba8") return dispatch_conv<gil::bmp_tag, gil::rgba8_image_t>(w, path); return "unsupported"; }
                 if (t == "rgb8") return dispatch<gil::bmp_tag, gil::rgb8_image_t>(w, path);
                 if (t == "rgba8") return dispatch<gil::bmp_tag, gil::rgba8_image_t>(w, path);
